@@ -201,6 +201,7 @@ def faulty_divergences(ctx, case):
     if rc is None:
         return [], "", 0, {}, "infra"
     conc = thread_ops(out.decode(errors="replace"))
+    ctx.last_faulty_transcript = out.decode(errors="replace")
     progs = {}
     for l in case.split("\n"):
         if l.startswith("prog "):
@@ -234,6 +235,7 @@ def run_faulty(ctx, run, name, case):
     import time
     replay = "kind: input\ncase: %s\n<<<CASE\n%s>>>CASE\n" % (name, case)
     div, err, rc, conc, status = faulty_divergences(ctx, case)
+    ctx.first_faulty_transcript = getattr(ctx, "last_faulty_transcript", "")
     for _ in range(2):
         if status != "infra":
             break
@@ -247,13 +249,26 @@ def run_faulty(ctx, run, name, case):
         V(run, "harness-hang:indep-faulty", "the ASan build timed out three times on %s, twice with ten times the limit: a hang that reproduces" % name, replay)
         return
     run.count(case, nontrivial=True, sample={"case": name, "kind": "indep-faulty"}, kind="indep-faulty")
+    # the sequential calls around the section (slots 60-63: warm-up before, "the registry still works" after) are all
+    # designed to succeed, whatever the threads did to THEIR topologies
+    for l in getattr(ctx, "first_faulty_transcript", "").split("\n"):
+        m = re.match(r"S (\d+) (init|load|cons|destroy) (6[0-3])\b(.*)", l)
+        if m and m.group(3) != "62" and fieldv(l, "rc") != "1":
+            V(run, "components-registry-broken:%s-%s" % (m.group(2), m.group(3)),
+              "after the threads' histories (error paths included) the sequential call `%s %s` fails: the process-wide component registry / reference count was damaged" % (m.group(2), m.group(3)),
+              replay + "\n" + l)
     for i, (ops, bad) in conc.items():
         for o in ops:
             run.count("%s/%d/%s" % (name, i, o), nontrivial=True, kind="faulty-call-rc%s" % (o[-1] if o else "?"))
         if bad != "0":
             V(run, "harness-parse", "thread program not understood in %s" % name, replay, no_input=True)
     if rc != 0:
-        V(run, "harness-asan:indep-faulty", "ASan/UBSan build failed rc=%d on %s: %s" % (rc, name, err[-600:]), replay + "\nstderr:\n" + err[-3000:])
+        ma = re.search(r"(\S+): (\w+): Assertion `([^']*)' failed", err)
+        if ma:
+            V(run, "library-abort:" + ma.group(2), "the library aborted in %s on assert(%s) (%s) while independent histories ran: %s" % (ma.group(2), ma.group(3), ma.group(1), name),
+              replay + "\nstderr:\n" + err[-3000:])
+        else:
+            V(run, "harness-asan:indep-faulty", "ASan/UBSan build failed rc=%d on %s: %s" % (rc, name, err[-600:]), replay + "\nstderr:\n" + err[-3000:])
     if div:
         t0 = time.time()
 
@@ -614,6 +629,8 @@ def check(run, replay=None):
     for r in range((12 if run.tier == "thorough" else 2) if docs else 0):
         for T in ((2, 4, 16) if run.tier == "thorough" else (2, 4)):
             cases.append(("indep-faulty-T%d-%d" % (T, r), G.indep_faulty(rng_f, C.REPO, docs, T, ordered=(r % 2 == 0))))
+            cases.append(("indep-errors-T%d-%d" % (T, r), G.indep_errors(rng_f, C.REPO, docs, T, lockstep=False)))
+        cases.append(("indep-errors-lockstep-%d" % r, G.indep_errors(rng_f, C.REPO, docs, 2, lockstep=True)))
     for name, case in cases:
         if "# kind: indep-faulty" in case:
             if not docs:
